@@ -212,10 +212,12 @@ def cargo_build(ctx, features=(), release=False, no_default=False):
         shutil.copyfile(os.path.join(REPO, "Cargo.lock"), os.path.join(HARNESS, "Cargo.lock"))
     except OSError:
         pass
-    rc, out, err = sh(args, cwd=HARNESS, timeout=3000)
+    tdir = os.path.join(BUILD, "cargo_po" if "preserve_order" in features else "cargo")
+    env = dict(ENV, CARGO_TARGET_DIR=tdir)
+    rc, out, err = sh(args, cwd=HARNESS, timeout=3000, env=env)
     ok = rc == 0
     ctx.oblige("cargo build harness against /repo working tree" + (f" [{','.join(features)}]" if features else "") + (" [release]" if release else ""), ok, err[-2000:])
-    return os.path.join(BUILD, "cargo", "release" if release else "debug", "tvh") if ok else None
+    return os.path.join(tdir, "release" if release else "debug", "tvh") if ok else None
 
 
 def driver_path():
